@@ -544,3 +544,66 @@ func VP_C07_spread() {
 	}
 	vpReach("C07/spread/done")
 }
+
+func init() {
+	vpHarnesses["VP_C07_reassign"] = VP_C07_reassign
+}
+
+// C07/reassign: a second assignment to the same local replaces the binding
+// whatever the old and new values are - in particular when they are of
+// different kinds but loosely equal ('5' / 5, 0 / null / false / '', true / 1).
+func VP_C07_reassign() {
+	srcs := []string{"5", "'5'", "0", "null", "false", "true", "1", "''", "'0'", "'true'", "x", "'7'", "y", "-0"}
+	wants := []interface{}{5, "5", 0, nil, false, true, 1, "", "0", "true", 7, "7", nil, 0}
+	i := vpChoice("v1", len(srcs))
+	j := vpChoice("v2", len(srcs))
+	mode := vpChoice("mode", 3)
+	r := NewRunner()
+	r.SetThis(map[string]interface{}{"x": 7, "y": nil})
+	ev := func(src string) (interface{}, error) {
+		code, perr := ParseSourceCode([]byte(src))
+		if perr != nil {
+			return nil, perr
+		}
+		return vpExact(r, context.Background(), code.Expression)
+	}
+	same := func(v interface{}, want interface{}) bool {
+		switch w := want.(type) {
+		case nil:
+			return IsNull(v)
+		case bool:
+			g, ok := v.(bool)
+			return ok && g == w
+		case int:
+			g, ok := v.(*decimal.Big)
+			return ok && vpBigEq(g, g.Signbit(), uint64(w), 0)
+		case string:
+			g, ok := v.(string)
+			return ok && g == w
+		}
+		return false
+	}
+	var v2 interface{}
+	var err error
+	switch mode {
+	case 0: // two evaluations by the same runner
+		_, err = ev("$a = " + srcs[i])
+		vpAssert("C07/reassign/first-assignment-succeeds", err == nil)
+		v2, err = ev("$a = " + srcs[j])
+	case 1: // one comma sequence
+		v2, err = ev("$a = " + srcs[i] + ", $a = " + srcs[j])
+	default: // chained through another local
+		v2, err = ev("$b = " + srcs[j] + ", $a = " + srcs[i] + ", $a = $b")
+	}
+	vpAssert("C07/reassign/second-assignment-has-its-value", err == nil && same(v2, wants[j]))
+	got, err3 := ev("$a")
+	vpObserve("reassign", i, j, mode, vpShowValue(got))
+	vpAssert("C07/reassign/later-read-sees-the-new-binding", err3 == nil && same(got, wants[j]))
+	inSeq, err4 := ev("$a = " + srcs[i] + ", $a = " + srcs[j] + ", [$a]")
+	ok := false
+	if arr, isArr := inSeq.([]interface{}); isArr && len(arr) == 1 {
+		ok = same(arr[0], wants[j])
+	}
+	vpAssert("C07/reassign/read-further-right-sees-the-new-binding", err4 == nil && ok)
+	vpReach("C07/reassign/done")
+}
